@@ -204,6 +204,23 @@ Theorem C06_userlists_order_indep : forall secrets reqs reqs' name,
 Proof. exact userlists_order_indep. Qed.
 Print Assumptions C06_userlists_order_indep.
 
+(* tcp-services ConfigMap: the keys "9000", "09000", "+9000" are one port; the first valid
+   declaration in key order configures it, whatever the order of the map ... *)
+Theorem C06_tcp_owner_order_indep :
+  forall (valid : string -> bool) (visit visit' : list (string * string)) (port : Z),
+  Permutation visit visit' -> NoDup (map fst visit) ->
+  tcp_owner valid visit port = tcp_owner valid visit' port.
+Proof. exact tcp_owner_order_indep. Qed.
+Print Assumptions C06_tcp_owner_order_indep.
+
+(* ... while before /repo c870730 the last declaration visited named the shared backend *)
+Theorem C06_tcp_name_old_refuted :
+  exists (valid : string -> bool) (visit visit' : list (string * string)) (port : Z),
+    Permutation visit visit' /\ NoDup (map fst visit) /\
+    tcp_name_old valid visit port <> tcp_name_old valid visit' port.
+Proof. exact tcp_name_old_refuted. Qed.
+Print Assumptions C06_tcp_name_old_refuted.
+
 (* ================================================================== *)
 (* 5. the host maps: the visiting order of the hostnames                *)
 (* ================================================================== *)
